@@ -39,7 +39,7 @@ for _c, _k in _why.items():
 PROPS["C16"] = dict(
     driver="params",
     props_file="Props/C16.v",
-    coq_targets=["Params/Check.vo", "Params/Proofs.vo", "Params/Sound.vo"],
+    coq_targets=["Params/Check.vo", "Params/Proofs.vo", "Params/Sound.vo", "Params/Pinned.vo"],
     check_module="Params.Check",
     check_fn="check_case",
     translators=[dict(driver="params", args=["defaults"], out="Gen/ParamsDefaults.v")],
@@ -58,6 +58,8 @@ PROPS["C16"] = dict(
     codes=_codes,
     explain=_explain,
     trusted_base=["the denom / address / beacon classes of the model's vocabulary stand for the fixed strings listed in harness/cmd/params/main.go",
+                  "the EVM behind the token keeper is the harness's mock (deploy with a beacon, mint and burn within balances succeed); no exchange-rate feed is registered for the service module",
+                  "coq/Params/Pinned.v (validators of the pinned commit, used only by the *_refuted_at_pinned_commit witnesses) was tied to the code by the runs of rounds 1-2, not by this run",
                   "256-bit overflow of sdkmath.Int arithmetic on operation inputs is outside the model except where a parameter is a factor "
                   "(service price * multiple, htlc fixed fee + minimum): inputs are otherwise kept below 2^100"],
     assumptions=["operation inputs (amounts, reserves, balances) are below 2^100 (service bind price: up to 2^200); parameter values range over the whole encodable domain"],
